@@ -129,7 +129,8 @@ def axioms_for(terms):
 
 
 USE_RATNORM = True
-RATNORM = {"identities": 0, "discharged": 0, "denominator_queries": 0, "fallbacks": 0}
+RATNORM_CROSS_EVERY = 20
+RATNORM = {"identities": 0, "discharged": 0, "denominator_queries": 0, "fallbacks": 0, "z3_agree": 0, "z3_unknown": 0, "z3_DISAGREE": 0}
 
 
 def _denominators(terms):
@@ -249,6 +250,22 @@ def valid(claim, pc=(), assumptions=(), timeout_ms=20000, want_model=True, weak_
     if USE_RATNORM:
         v0 = _ratnorm_pass(c, hyps, timeout_ms, t0)
         if v0 is not None:
+            # every N-th normaliser verdict is re-decided by the plain SMT query
+            RATNORM["n"] = RATNORM.get("n", 0) + 1
+            if RATNORM_CROSS_EVERY and RATNORM["n"] % RATNORM_CROSS_EVERY == 0:
+                s2 = z3.Solver()
+                s2.set("timeout", 10000)
+                for h in hyps:
+                    s2.add(h)
+                for a in axioms_for(hyps + [neg]):
+                    s2.add(a)
+                s2.add(neg)
+                r2 = s2.check()
+                key = "z3_agree" if r2 == z3.unsat else "z3_unknown" if r2 == z3.unknown else "z3_DISAGREE"
+                RATNORM[key] = RATNORM.get(key, 0) + 1
+                if r2 == z3.sat:
+                    CROSS["disagree"] += 1
+                    CROSS["log"].append("ratnorm said identity, z3 sat:\n" + s2.to_smt2()[:2000])
             return v0
     ab = abstract_ufs(hyps + [neg])
     if ab is not None:
